@@ -1,6 +1,6 @@
 (* Correspondence classifier for C11 (includes expand in place).  One verdict per case:
    0 Agree | 1 ModelMismatch | 2 PropertyFail | 101 known finding C11-K1 |
-   9 harness error (cycle / pattern outside the model).
+   9 harness error (pattern outside the model: `**`).
    A case is a tree of ledger files (abstracted: every file is its sequence of `Inc written` and
    `Ent id` entries), the root path, the uncut ledger (entry ids in order), and what
    Loader::load delivered on the in-memory file system and on a real directory. *)
@@ -11,13 +11,15 @@ Open Scope N_scope.
 
 (* delivered (file index in c_fs, entry id) pairs; index 999 = a path that is not in the tree.
    st: 0 Ok | 1 IO NotFound | 2 IO other | 3 Parse | 4 other LoadError | 5 panic |
-   6 the process running the loader aborted (stack overflow) or hung *)
+   6 the process running the loader aborted (stack overflow) or hung |
+   7 LoadError::InvalidIncludeGlob *)
 Inductive lobs := LObs (trace : list (N * N)) (st : N).
 
 Record case := {
   c_kind : N;          (* 0 a cut of c_ledger: must load and deliver it
                           1 a cut with one include made to match nothing: must fail with NotFound
-                          2 free-form tree *)
+                          2 free-form tree
+                          3 a cut with one include given an unclosed `[`: must fail with InvalidIncludeGlob *)
   c_fs : fsys;
   c_root : path;
   c_ledger : list N;   (* the uncut ledger *)
@@ -64,10 +66,11 @@ Definition spec_holds (c : case) : bool :=
   | LObs t st =>
       lobs_eqb (c_fake c) (c_real c) &&          (* the real and the in-memory file system agree *)
       attributed (c_fs c) t &&
-      negb (5 <=? st) &&                         (* the trees are acyclic: no crash, no hang *)
+      negb ((st =? 5) || (st =? 6)) &&           (* the trees are acyclic: no crash, no hang *)
       match c_kind c with
       | 0 => (st =? 0) && list_eqb N.eqb (map snd t) (c_ledger c) && (c_bal c =? 1)
       | 1 => (st =? 1) && prefix_eqb (map snd t) (c_ledger c)
+      | 3 => (st =? 7) && prefix_eqb (map snd t) (c_ledger c)
       | _ => true
       end
   end.
@@ -84,6 +87,7 @@ Definition status_code (s : status) : N :=
   | Failed IONotFound => 1
   | Failed RootLoadingPath => 4
   | Failed IncludeCycle => 4
+  | Failed InvalidIncludeGlob => 7
   | Failed Unsupported => 90
   | OutOfFuel => 91
   end.
